@@ -163,16 +163,24 @@ def run_codec(pid, fmts, tier, seed):
     ses = Session(run, seed)
     try:
         # ---- 3. real code
-        recs, live = [], []
+        recs, live, unbuilt = [], [], []
         for r in rows:
             rec = ses.observe(r)
             nontrivial = not (r["cls"] == "base" and r["vc"] == "absent")
             if "skip" in rec:
+                # only a fit that does not converge is an acceptable reason not to have an original isotherm; anything
+                # else would silently empty the scenario table (vacuity guard: machinery failure, not a verdict)
+                if not (r["cls"] == "model" and r["layout"] in ("fitted", "fitted_int") and rec["skip"] == "build:CalculationError"):
+                    unbuilt.append((r, rec["skip"]))
                 run.add("not_judged_" + rec["skip"].replace(":", "_"))
                 continue
             run.count(rowkey(r), nontrivial=nontrivial)
             recs.append(rec)
             live.append(r)
+        if unbuilt:
+            r0, why = unbuilt[0]
+            raise MachineryError(f"{len(unbuilt)} scenario row(s) could not be materialised ({why}), e.g. { {k: r0[k] for k in ROWKEYS} }: "
+                                 "the constructors under test reject an isotherm the scenario table contains")
         # ---- 4. TLC judges
         answers = judge_batch(recs)
         # a refusal is only excused by an out-of-domain focus entry if that entry causes it: rows whose refusal
